@@ -343,8 +343,9 @@ def run(chk, scratch):
     chk.assumptions = ["delta per preset from the documentation (0/4/6/12)", "'compatible' is judged with end tolerance 50+delta for 'every reported isoform is compatible' and for "
                        "'T is the only compatible isoform' (so both directions are conservative)",
                        "non-conforming reads are judged only when they differ from EVERY overlapping isoform by a hard difference (vlib/oracles/compat.py)",
-                       "alternative splice sites of the isoforms of one generated gene lie 40-90 bp apart, i.e. further than 2*delta for every preset: "
-                       "isoforms whose sites are within 2*delta of each other (a read within delta of T can then be nearer to a site of S) are not generated "
+                       "alternative splice sites of the isoforms of one generated gene lie 40-90 bp apart, i.e. further than 2*delta for every preset, except in the "
+                       "NAGNAG-like loci (two isoforms differing by 1..delta bp at ONE boundary), whose reads are error-free: reads with JITTERED sites next to isoforms "
+                       "whose sites are within 2*delta of each other (a read within delta of T can then be nearer to a site of S) are not generated "
                        "(DESIGN.md section 11 (p), C01 case 1)"]
     chk.inconclusive_if(judged_c == 0 or judged_n == 0, "no conforming or no non-conforming read judged")
     chk.min_nontrivial = 20
